@@ -136,8 +136,14 @@ def main():
             for v in res["checks"].values():
                 if v["tail"]:
                     print("     ", v["tail"].replace("\n", "\n      ")[-500:])
-    resfile.write_text(json.dumps(results, indent=1, sort_keys=True) + "\n")
-    shutil.rmtree(SCRATCH, ignore_errors=True)
+    # merge with what another run may have recorded meanwhile; remove only our own scratch copies
+    latest = json.loads(resfile.read_text()) if resfile.exists() else {}
+    latest.update({m["name"]: results[m["name"]] for m in muts if m["name"] in results})
+    resfile.write_text(json.dumps(latest, indent=1, sort_keys=True) + "\n")
+    try:
+        SCRATCH.rmdir()
+    except OSError:
+        pass
 
 
 if __name__ == "__main__":
